@@ -138,6 +138,29 @@ package state
 //@   ensures [own_contracts] err == nil && old(s.last) != as(ptr_accountSnapshotImpl, isnapshot) ==> (s.curContract == nil || fresh(s.curContract)) && (s.nextContract == nil || fresh(s.nextContract))
 //@   ensures [snapshot_untouched] as(ptr_accountSnapshotImpl, isnapshot).deposits == old(as(ptr_accountSnapshotImpl, isnapshot).deposits) && as(ptr_accountSnapshotImpl, isnapshot).objCache == old(as(ptr_accountSnapshotImpl, isnapshot).objCache) && as(ptr_accountSnapshotImpl, isnapshot).state == old(as(ptr_accountSnapshotImpl, isnapshot).state)
 
+// a snapshot taken from a changed account is a new object holding the current scalar contents and
+// copies of its own of the deposits and the object graph cache (later in-place updates of the mutable
+// state cannot reach it); an unchanged account hands out its last snapshot again
+//@ spec snapOf(r) = as(ptr_accountSnapshotImpl, r)
+//@ func (c *contract) getSnapshot() (r)
+//@   trusted
+//@   pure
+//@ func (s *accountStateImpl) GetSnapshot() (r)
+//@   arith int
+//@   nosafety
+//@   modifies *
+//@   opt no-callee-pre
+//@   opt inline-none
+//@   opt protect fields(s)
+//@   requires s != nil
+//@   ensures [cached] old(s.last) != nil ==> typeof(r) == typeid(ptr_accountSnapshotImpl) && snapOf(r) == old(s.last)
+//@   ensures [new_object] old(s.last) == nil ==> typeof(r) == typeid(ptr_accountSnapshotImpl) && snapOf(r) != nil
+//@   ensures [new_object2] old(s.last) == nil ==> fresh(snapOf(r))
+//@   ensures [new_object3] old(s.last) == nil ==> s.last == snapOf(r)
+//@   ensures [contents] old(s.last) == nil ==> snapOf(r).balance == s.balance && snapOf(r).state == s.state && snapOf(r).version == s.version && snapOf(r).isContract == s.isContract && snapOf(r).contractOwner == s.contractOwner
+//@   ensures [own_deposits] old(s.last) == nil ==> snapOf(r).deposits == nil || fresh(snapOf(r).deposits)
+//@   ensures [own_objcache] old(s.last) == nil ==> snapOf(r).objCache == nil || fresh(snapOf(r).objCache)
+
 // Equal (used by the object trie to skip updates that change nothing) compares the whole state word,
 // the version, the contract flag and the balance
 //@ func (s *accountSnapshotImpl) Equal(object) (r)
